@@ -266,6 +266,17 @@ class Builder:
         d = self.draw
         x = d(st.sampled_from(self.cfg.ids)); i = d(st.sampled_from(self.cfg.ids))
         Mv = R.MV(i, (x,), (), (), ())
+        if d(st.booleans()):
+            # variant: the same metavariable id occurs twice with different constraint lists in ONE theorem,
+            # (phi_i -> phi_i) -> ((exists x. phi_i{e_fresh x}) -> phi_i{e_fresh x}), the unconstrained occurrence first; a plug that
+            # only violates the later occurrence's constraint must still be refused
+            B = R.I(R.MV(i), R.MV(i)); T1 = R.I(R.EX(x, Mv), Mv)
+            setup = inst_stream([12], [(0, T1), (1, B)]) + refl_stream(Mv) + bytes([22, x, 21])
+            if not self.emit(setup, 'launder-setup', allow_reject=False): return
+            plug = d(st.sampled_from([R.E(x), R.A(R.Y(0), R.E(x))]))
+            idx = len(self.m.memory)
+            self.emit(bytes([28, 27]) + M.emit(plug) + bytes([29, idx, 26, 1, i]), 'attack-mixed-constraints', allow_reject=True)
+            return
         if not self.emit(refl_stream(Mv) + bytes([22, x]), 'launder-setup', allow_reject=False): return
         first = d(st.sampled_from([R.MV(i), R.MV(d(st.sampled_from(self.cfg.ids))), R.MV(i, (), (x,), (), ())]))
         plug = d(st.sampled_from([R.E(x), R.A(R.Y(0), R.E(x)), R.I(R.E(x), R.Y(0))]))
